@@ -191,6 +191,14 @@ class Session(object):
             cn = Obligation(short_fn(full) + '/canary.return#%d' % i, 'canary', pc, FALSE, line or 0, len(ctx.asserts))
             cn.trivial = False
             obs.append(cn)
+        seen_lp = {}
+        for nm, pc, na in getattr(v, 'loop_pcs', []):
+            k_ = seen_lp.get(nm, 0)
+            seen_lp[nm] = k_ + 1
+            cn = Obligation(short_fn(full) + '/canary.%s#%d' % (nm, k_), 'canary', pc, FALSE, 0, na)
+            cn.trivial = False
+            cn.loop = nm
+            obs.append(cn)
         res.update({'ctx': ctx, 'obs': obs, 'verifier': v, 'trusted': sorted(v.trusted), 'notes': sorted(set(ctx.notes)), 'gen_s': time.time() - t0,
                     'loop_problems': v.loop_problems})
         return res
@@ -307,9 +315,9 @@ def check_property(prop, tier, seed):
     t0 = time.time()
     timeout = 20 if tier == 'quick' else 60
     pkgs = [MOD + '/' + p for p in PROPS[prop]]
-    evidence_path = os.path.join(VERIF, 'evidence', prop + '.json')
+    evidence_path = os.path.join(os.environ.get('GOWP_EVIDENCE_DIR') or os.path.join(VERIF, 'evidence'), prop + '.json')
     os.makedirs(os.path.dirname(evidence_path), exist_ok=True)
-    replay_dir = os.path.join(VERIF, 'replay', prop)
+    replay_dir = os.path.join(os.environ.get('GOWP_REPLAY_DIR') or os.path.join(VERIF, 'replay'), prop)
     violations = []      # (obligation name, replay path, no_input)
     known, fixed = load_known(os.path.join(VERIF, 'known_findings.txt'))
     known = known.get(prop, {})
@@ -384,7 +392,7 @@ def check_property(prop, tier, seed):
         r['retried'] = True
         ob.result = r
         return pair
-    if retry and len(retry) <= 40:
+    if retry and len(retry) <= 40 and not os.environ.get('GOWP_NO_RETRY'):
         with ThreadPoolExecutor(max_workers=4) as pool:
             list(pool.map(rework, retry))
     nob = ndis = 0
@@ -416,9 +424,19 @@ def check_property(prop, tier, seed):
                     samples.append({'obligation': ob.name, 'kind': ob.kind, 'clause': ob.info.get('clause'), 'line': ob.line, 'backend': r['solver'], 'time_s': round(r['time'], 3)})
             else:
                 handle_failure(prop, g, ob, ses, replay_dir, violations, known)
-        cans = [ob for ob in g['obs'] if ob.kind == 'canary']
+        cans = [ob for ob in g['obs'] if ob.kind == 'canary' and not getattr(ob, 'loop', None)]
         if cans and cans[0].result['status'] == 'unsat':
             vac_problems.append('%s: requires unsatisfiable' % short_fn(g['func']))
+        # a loop whose header is reachable but none of whose back edges is: the invariant contradicts the body
+        lcs = [ob for ob in g['obs'] if ob.kind == 'canary' and getattr(ob, 'loop', None)]
+        by_loop = {}
+        for ob in lcs:
+            by_loop.setdefault(ob.loop.split('.')[0], {}).setdefault(ob.loop.split('.')[1], []).append(ob.result['status'])
+        for ln_, d_ in by_loop.items():
+            if d_.get('header') and all(x == 'unsat' for x in d_['header']):
+                vac_problems.append('%s: %s header unreachable after assuming its invariants (contradictory invariant?)' % (short_fn(g['func']), ln_))
+            elif d_.get('backedge') and all(x == 'unsat' for x in d_['backedge']):
+                vac_problems.append('%s: %s no back edge reachable (contradictory invariant or body?)' % (short_fn(g['func']), ln_))
         rets = [c_.result['status'] for c_ in cans[1:]]
         if rets and all(x == 'unsat' for x in rets):
             vac_problems.append('%s: no return reachable' % short_fn(g['func']))
